@@ -50,8 +50,9 @@ def h_sink(cfg):
 
 
 class DropTap:
-    def __init__(self, env, name, k, delay, out, budget=None):
+    def __init__(self, env, name, k, delay, out, budget=None, jitter=0, extra=0.0):
         self.env, self.name, self.k, self.delay, self.out = env, name, k, delay, out
+        self.jitter, self.extra = jitter, extra      # the first `jitter` transmissions may be held `extra` seconds longer
         self.budget = budget           # shared cap on the total number of drops
         self.count = 0
         self.sent = []
@@ -71,11 +72,15 @@ class DropTap:
             return
         # each transmission travels on its own (the sender re-sends the same object)
         snap = (pkt.time, pkt.size, pkt.packet_id, pkt.flow_id, getattr(pkt, 'ack', 0))
-        self.env.process(self._deliver(pkt, snap))
+        from symx import choice
+        late = i < self.jitter and choice('%sj%d' % (self.name, i), 2) == 1
+        if late:
+            self.delayed = getattr(self, 'delayed', 0) + 1
+        self.env.process(self._deliver(pkt, snap, self.delay + (self.extra if late else 0)))
 
-    def _deliver(self, pkt, snap):
+    def _deliver(self, pkt, snap, delay):
         from onl.packet import Packet
-        yield self.env.timeout(self.delay)
+        yield self.env.timeout(delay)
         p = Packet(snap[0], snap[1], snap[2], flow_id=snap[3])
         p.ack = snap[4]
         self.out.put(p)
@@ -92,8 +97,8 @@ def h_reliable(cfg):
     snd = TCPPacketGenerator(env, flow, cc, element_id='s', rtt_estimate=cfg['rtt0'])
     sink = TCPSink(env)
     budget = {'left': cfg['max_drops']} if cfg.get('max_drops') else None
-    data = DropTap(env, 'dd', kd, cfg['d1'], sink, budget)
-    acks = DropTap(env, 'da', ka, cfg['d2'], snd, budget)
+    data = DropTap(env, 'dd', kd, cfg['d1'], sink, budget, cfg.get('jitter_data', 0), cfg.get('extra', 0.0))
+    acks = DropTap(env, 'da', ka, cfg['d2'], snd, budget, cfg.get('jitter_ack', 0), cfg.get('extra', 0.0))
     snd.out = data
     sink.out = acks
     try:
@@ -103,13 +108,15 @@ def h_reliable(cfg):
         return
     check('c16.sink-has-all-data', sink.recv_buffer == [[0, m * MSS]], str(sink.recv_buffer))
     check('c16.sender-acked-all', snd.last_ack == m * MSS, snd.last_ack)
-    lossless = data.dropped == 0 and acks.dropped == 0
+    lossless = data.dropped == 0 and acks.dropped == 0 and not getattr(data, 'delayed', 0) and not getattr(acks, 'delayed', 0)
     if lossless and cfg['d1'] + cfg['d2'] < 2 * cfg['rtt0']:
         ids = [i for i, _, _ in data.sent]
         check('c16.no-spurious-retransmission', len(ids) == len(set(ids)), ids)
         cover('lossless-path')
     if data.dropped or acks.dropped:
         cover('nontrivial')
+    if getattr(acks, 'delayed', 0) or getattr(data, 'delayed', 0):
+        cover('reordered-by-delay')
     if acks.dropped:
         cover('ack-dropped')
     if data.dropped:
@@ -142,6 +149,12 @@ def jobs(tier, seed):
             js.append({'harness': 'reliable', 'weight': 100,
                        'cfg': {'cc': cc, 'm': m, 'kd': m + 3, 'ka': 2, 'max_drops': 1, 'd1': 1.5, 'd2': 1.5, 'rtt0': 1.0,
                                'horizon': 100000}})
+    # a path that delays individual packets (reordering data segments and ACKs), with and without one drop
+    for cc in ('reno', 'cubic'):
+        for m in (3, 4) if tier == 'quick' else (3, 4, 6):
+            js.append({'harness': 'reliable', 'weight': 200,
+                       'cfg': {'cc': cc, 'm': m, 'kd': 3, 'ka': 3, 'max_drops': 1, 'd1': 0.25, 'd2': 0.25, 'rtt0': 1.0,
+                               'jitter_data': 4, 'jitter_ack': 4, 'extra': 0.75, 'horizon': 100000}})
     # longer flows, at most two drops anywhere among the first transmissions (all pairs data/data, data/ACK, ACK/ACK)
     for cc in ('reno', 'cubic'):
         for m in (5, 6) if tier == 'quick' else (5, 6, 8):
@@ -164,7 +177,7 @@ META = {
             '(symbolic Booleans per transmission index); non-trivial = at least one packet dropped / any segment sequence',
     'required_labels': ['c16.ack-is-prefix-length', 'c16.ack-monotone', 'c16.sink-has-all-data', 'c16.sender-acked-all',
                         'c16.no-spurious-retransmission'],
-    'required_covers': ['nontrivial', 'ack-dropped', 'data-dropped', 'lossless-path'],
+    'required_covers': ['nontrivial', 'ack-dropped', 'data-dropped', 'lossless-path', 'reordered-by-delay'],
     'bounds': {'quick': 'Part A: n<=4 segments, seq>=0 and size>=1 symbolic (also MSS-aligned); Part B: flow of 2-3 MSS, drop pattern over the '
                         'first 4 data / 4 ACK transmissions (or 3+3), plus flows of 5-6 MSS with at most 2 drops anywhere among the first m+3 data / ACK transmissions; '
                         'one-way delays {0.25,1.5}, initial RTT estimate 1.0, Reno and CUBIC, horizon 1e5',
